@@ -13,7 +13,8 @@ def run(ctx, pid):
     assert pid in ("C01", "C16")
     ctx.lib(["Pauli/PauliCheck", "Pauli/PauliProofs3"])
     if not any(o["name"] == "translator:GenPauli" for o in ctx.obligations):
-        ctx.translate("GenPauli", gen_pauli.generate)
+        # C01 additionally requires PauliOperator.is_unitary to be the NotImplementedError stub (fail closed)
+        ctx.translate("GenPauli", (lambda: gen_pauli.generate(operator_unitary=True)) if pid == "C01" else gen_pauli.generate)
     if all(o["ok"] for o in ctx.obligations if o["name"] == "translator:GenPauli"):
         ctx.props(os.path.join(COQ, "props", pid + "p.v"))
     ctx.trusted.append("%s (Pauli part): the shapes of PauliString/WeightedPauliString.is_unitary/is_hermitian and "
@@ -71,3 +72,199 @@ def run(ctx, pid):
             if fl and not np.array_equal(M, M.conj().T):
                 ctx.fail("operator:is_hermitian-unsound", desc)
     ctx.cases("pauliflags", HEADER, cases)
+    operator_flags(ctx, pid)
+
+
+# =============================================================================== every operator class, by introspection
+TOLF = 1e-9
+
+
+def _field(kind, n, layered=False):
+    import qib
+    pt = qib.field.ParticleType.FERMION if kind == "fermi" else qib.field.ParticleType.QUBIT
+    lat = qib.lattice.IntegerLattice((n,), pbc=False)
+    if layered:
+        lat = qib.lattice.LayeredLattice(lat, 2)
+    return qib.field.Field(pt, lat)
+
+
+def build_operator(d):
+    """spec -> (object whose flag is asked, object whose as_matrix() is the matrix)"""
+    import qib
+    from qib.operator import (PauliString, WeightedPauliString, PauliOperator, FieldOperator, FieldOperatorTerm, IFODesc, IFOType,
+                              IsingHamiltonian, HeisenbergHamiltonian, FermiHubbardHamiltonian, MolecularHamiltonian,
+                              MolecularHamiltonianSymmetry)
+    c = d["cls"]
+    cx = lambda w: complex(w[0], w[1])
+    if c == "PauliString":
+        o = PauliString(*d["p"])
+        return o, o
+    if c == "WeightedPauliString":
+        o = WeightedPauliString(PauliString(*d["p"]), cx(d["w"]))
+        return o, o
+    if c == "PauliOperator":
+        o = PauliOperator([WeightedPauliString(PauliString(*p), cx(w)) for p, w in d["items"]])
+        return o, o
+    if c in ("FieldOperator", "FieldOperatorTerm"):
+        f = _field("fermi", d["n"])
+        co = np.array([[cx(w) for w in row] for row in d["coeffs"]])
+        term = FieldOperatorTerm([IFODesc(f, IFOType.FERMI_CREATE), IFODesc(f, IFOType.FERMI_ANNIHIL)], co)
+        op = FieldOperator([term])
+        return (term if c == "FieldOperatorTerm" else op), op
+    if c == "IsingHamiltonian":
+        o = IsingHamiltonian(_field("qubit", d["n"]), d["J"], d["h"], d["g"])
+        return o, o
+    if c == "HeisenbergHamiltonian":
+        o = HeisenbergHamiltonian(_field("qubit", d["n"]), d["J"], d["h"])
+        return o, o
+    if c == "FermiHubbardHamiltonian":
+        o = FermiHubbardHamiltonian(_field("fermi", d["n"], layered=d["spin"]), float(d["t"]), float(d["u"]), d["spin"])
+        return o, o
+    if c == "MolecularHamiltonian":
+        n = d["n"]
+        tk = np.array([[cx(w) for w in row] for row in d["tkin"]])
+        symm = MolecularHamiltonianSymmetry.HERMITIAN if d["herm"] else MolecularHamiltonianSymmetry(0)
+        o = MolecularHamiltonian(_field("fermi", n), d["c"], tk, np.zeros((n, n, n, n)), symm)
+        return o, o
+    raise KeyError(c)
+
+
+def operator_instances(rng, thorough):
+    """instances per non-gate operator class; Pauli operators: complex relative phases, phase carried by the string (q) vs by
+    the weight, pairwise anti-commuting normalised mixtures, commuting and non-commuting mixtures, zero weights"""
+    s = 1 / np.sqrt(2)
+    X, Y, Z, I1 = ([0], [1]), ([1], [1]), ([1], [0]), ([0], [0])       # (z, x) of one site; Y as a letter has q = 1
+
+    def P(zx, q=0):
+        return [list(zx[0]), list(zx[1]), q]
+    fixed = [
+        [[P(X), [s, 0]], [P(Z), [s, 0]]],                   # (X + Z)/sqrt2: unitary, Hermitian
+        [[P(X), [s, 0]], [P(Y, 1), [0, s]]],                # (X + iY)/sqrt2 = sqrt2 |0><1|: NOT unitary
+        [[P(X), [s, 0]], [P(Y, 2), [s, 0]]],                # the same relative phase carried by the string: X + (-i)^2... q = 2
+        [[P(X), [s, 0]], [P(Y, 0), [s, 0]]],                # q = 0: Z X-type string (iY up to phase), relative phase i through q
+        [[P(X), [0.6, 0]], [P(Y, 1), [0.8, 0]]],            # 0.6 X + 0.8 Y: unitary
+        [[P(X), [0.6, 0]], [P(Y, 1), [0, 0.8]]],            # 0.6 X + 0.8 i Y: not unitary
+        [[P(X), [0.6, 0]], [P(Z), [0.8 * s, 0.8 * s]]],     # complex relative phase e^{i pi/4}
+        [[P(X), [s, 0]], [P(X), [s, 0]]],                   # commuting (equal) strings
+        [[P(X), [1, 0]]], [[P(Y, 1), [0, 1]]], [[P(Z), [0, 0]], [P(X), [1, 0]]],   # single strings, a zero weight
+        [[P(([0, 0], [1, 0])), [s, 0]], [P(([1, 0], [1, 0]), 1), [0, s]]],       # two sites: X1 + i Y1
+        [[P(([0, 0], [1, 1])), [0.5, 0]], [P(([1, 1], [0, 0])), [0.5, 0]], [P(([1, 1], [1, 1]), 2), [s, 0]]],  # XX, ZZ, YY commute
+        [[P(([0, 0], [1, 0])), [s, 0]], [P(([1, 0], [0, 0])), [0, -s]]],         # X1 - i Z1
+    ]
+    out = [{"cls": "PauliOperator", "items": it} for it in fixed]
+    W = [[1, 0], [-1, 0], [0, 1], [0, -1], [s, s], [s, -s], [0.6, 0.8], [0, 0], [2, 0], [0.5, 0.5]]
+    for _ in range(200 if thorough else 60):
+        n = rng.randint(1, 3)
+        k = rng.randint(1, 3)
+        items = []
+        for _ in range(k):
+            z = [rng.randint(0, 1) for _ in range(n)]
+            x = [rng.randint(0, 1) for _ in range(n)]
+            items.append([[z, x, rng.randint(0, 3)], list(rng.choice(W))])
+        if rng.random() < 0.5:                  # normalise sum |w|^2 to 1 so that a norm-based criterion fires
+            nrm = np.sqrt(sum(w[0] ** 2 + w[1] ** 2 for _, w in items))
+            if nrm > 0:
+                items = [[p, [w[0] / nrm, w[1] / nrm]] for p, w in items]
+        out.append({"cls": "PauliOperator", "items": items})
+        out.append({"cls": "WeightedPauliString", "p": items[0][0], "w": items[0][1]})
+        out.append({"cls": "PauliString", "p": items[0][0]})
+    for _ in range(12 if thorough else 4):
+        n = rng.randint(1, 3)
+        a = [[complex(round(rng.uniform(-1, 1), 3), round(rng.uniform(-1, 1), 3)) for _ in range(n)] for _ in range(n)]
+        herm = [[(a[i][j] + a[j][i].conjugate()) / 2 for j in range(n)] for i in range(n)]
+        for m in (herm, a):
+            co = [[[c.real, c.imag] for c in row] for row in m]
+            out.append({"cls": "FieldOperator", "n": n, "coeffs": co})
+            out.append({"cls": "FieldOperatorTerm", "n": n, "coeffs": co})
+        out.append({"cls": "MolecularHamiltonian", "n": n, "c": round(rng.uniform(-1, 1), 3), "herm": True,
+                    "tkin": [[[c.real, c.imag] for c in row] for row in herm]})
+        out.append({"cls": "MolecularHamiltonian", "n": n, "c": 0.5, "herm": False, "tkin": [[[c.real, c.imag] for c in row] for row in a]})
+        out.append({"cls": "IsingHamiltonian", "n": rng.randint(2, 3), "J": round(rng.uniform(-1, 1), 3), "h": round(rng.uniform(-1, 1), 3),
+                    "g": round(rng.uniform(-1, 1), 3)})
+        out.append({"cls": "HeisenbergHamiltonian", "n": rng.randint(2, 3), "J": [round(rng.uniform(-1, 1), 3) for _ in range(3)],
+                    "h": [round(rng.uniform(-1, 1), 3) for _ in range(3)]})
+        out.append({"cls": "FermiHubbardHamiltonian", "n": 2, "t": round(rng.uniform(-1, 1), 3), "u": round(rng.uniform(-1, 1), 3),
+                    "spin": rng.random() < 0.5})
+    return out
+
+
+def check_operator_flag(ctx, pid, d):
+    """claim true => the matrix has the claimed property (the claim may also raise NotImplementedError: no claim)"""
+    method = "is_unitary" if pid == "C01" else "is_hermitian"
+    try:
+        obj, mobj = build_operator(d)
+    except Exception as e:
+        ctx.count("operator_flags:not-constructible:" + d["cls"])
+        return None
+    fn = getattr(obj, method, None)
+    if fn is None:
+        return None
+    try:
+        claim = bool(fn())
+    except NotImplementedError:
+        ctx.count("operator_flags:%s.%s:raises" % (d["cls"], method))
+        return None
+    ctx.count("operator_flags:%s.%s:%s" % (d["cls"], method, claim))
+    if claim:
+        M = dense(mobj.as_matrix())
+        dev = float(np.abs(M @ M.conj().T - np.eye(len(M))).max()) if pid == "C01" else float(np.abs(M - M.conj().T).max())
+        if not dev <= TOLF:
+            ctx.fail("operator-flag:%s.%s:claims-true-but-matrix-is-not" % (d["cls"], method), dict(d, flag_sweep=True),
+                     "unitary matrix" if pid == "C01" else "Hermitian matrix", dev)
+    return claim
+
+
+NON_GATE_COVERED = {"PauliString", "WeightedPauliString", "PauliOperator", "FieldOperator", "FieldOperatorTerm", "IsingHamiltonian",
+                    "HeisenbergHamiltonian", "FermiHubbardHamiltonian", "MolecularHamiltonian"}
+
+
+def operator_flags(ctx, pid):
+    """every class of qib.operator that has is_unitary() (C01) / is_hermitian() (C16): the gate classes are swept by the gate
+    harnesses, control instructions have no matrix and answer False; every other class needs an instance generator here,
+    so a newly added operator class (or a newly implemented flag method) cannot go unexamined"""
+    import inspect
+    import qib.operator as qop
+    method = "is_unitary" if pid == "C01" else "is_hermitian"
+    missing = []
+    for name, obj in sorted(vars(qop).items()):
+        if not (inspect.isclass(obj) and callable(getattr(obj, method, None))) or inspect.isabstract(obj):
+            continue
+        if issubclass(obj, qop.Gate):
+            ctx.count("operator_flags:class-covered-by-gate-sweeps")
+            continue
+        if issubclass(obj, qop.ControlInstruction):
+            try:
+                inst = obj()
+                if getattr(inst, method)():
+                    ctx.fail("operator-flag:%s.%s:control-instruction-claims-true" % (name, method), {"cls": name, "flag_sweep": True})
+            except Exception:
+                pass
+            continue
+        if name not in NON_GATE_COVERED:
+            missing.append(name)
+    ctx.oblige("operator-flags:every-operator-class-has-an-instance-generator", "correspondence", not missing,
+               "no instance generator for: %s" % ", ".join(missing))
+    ctx.rules.append("operator flags (%s): every non-gate class of qib.operator found by introspection x instances (Pauli operators with "
+                     "complex relative phases carried by the weight or by the string's q, anti-commuting normalised mixtures, commuting "
+                     "mixtures, zero weights; field operators / molecular Hamiltonians with Hermitian and non-Hermitian coefficients; model "
+                     "Hamiltonians): a claim True (a method that raises NotImplementedError claims nothing) must hold of as_matrix() to 1e-9"
+                     % method)
+    for d in operator_instances(ctx.rng, ctx.thorough):
+        claim = check_operator_flag(ctx, pid, d)
+        if claim:
+            ctx.nontriv(("operator-flag", repr(d)[:1500]))
+
+
+def replay_flag(ctx, pid, data):
+    """True iff the replay input belongs to the operator-flag sweep (then handled here)"""
+    inp = data.get("input")
+    if not (isinstance(inp, dict) and inp.get("flag_sweep")):
+        return False
+    before = len(ctx.failing)
+    if "items" in inp or "p" in inp or "coeffs" in inp or "n" in inp:
+        check_operator_flag(ctx, pid, inp)
+    new = ctx.failing[before:]
+    del ctx.failing[before:]
+    if new:
+        ctx.fail(data["sig"], inp, data.get("expected"), new[0]["observed"])
+    return True
